@@ -640,6 +640,30 @@ func observe(c *compiler.Compiler, progs []program, seqOK []bool, i int, seed in
 	}
 	close(start)
 	wg.Wait()
+	// 5. cold start: a freshly compiled copy that has never run is started from all goroutines
+	// at once (whatever a node initialises lazily on its first execution happens concurrently)
+	if cold, cerr := refCompiler().Compile(pr.Text); cerr == nil {
+		start = make(chan struct{})
+		for g := 0; g < G; g++ {
+			wg.Add(1)
+			go func(g int) {
+				defer wg.Done()
+				<-start
+				o := run(cold, p0, q0)
+				mu.Lock()
+				res.Runs++
+				if !pr.Random && o != ref {
+					res.Conc = false
+					if res.Detail == "" {
+						res.Detail = fmt.Sprintf("goroutine %d of %d, first concurrent run of a freshly compiled copy returned %q (err=%v), a run alone returns %q (err=%v)", g, G, o.Bytes, o.Err, ref.Bytes, ref.Err)
+					}
+				}
+				mu.Unlock()
+			}(g)
+		}
+		close(start)
+		wg.Wait()
+	}
 	close(stop)
 	cwg.Wait()
 	_ = note
@@ -751,7 +775,7 @@ func main() {
 	}
 	rng := rand.New(rand.NewSource(seed))
 	m := NewMeta("C12", tier, seed)
-	m.Rule = "one evaluation = one generated program compiled once on the shared compiler and run 5 times sequentially, from 2-16 goroutines (1-3 runs each) with equal parameters and again with one parameter value per goroutine, and once more with parameter values never used before in the process, while another goroutine compiles other programs on the same compiler; non-trivial = the program compiles, its first run succeeds and it is inside the byte comparison; distinct = distinct program texts"
+	m.Rule = "one evaluation = one generated program compiled once on the shared compiler and run 5 times sequentially, from 2-16 goroutines (1-3 runs each) with equal parameters and again with one parameter value per goroutine, and once more with parameter values never used before in the process, and a never-run freshly compiled copy started from all goroutines at once, while another goroutine compiles other programs on the same compiler; non-trivial = the program compiles, its first run succeeds and it is inside the byte comparison; distinct = distinct program texts"
 	progs := make([]program, nProg)
 	for i := range progs {
 		d := 1 + rng.Intn(depth)
